@@ -44,7 +44,7 @@ example :
     let s := run exDbLim St.empty ops
     let outs := outputs exDbLim St.empty ops
     s.heap[0]? = some (.seq .ndarray [3, 1, 2]) ∧ outIs outs[1]? (.bool true) ∧ outIs outs[2]? .unit ∧
-    outIs outs[4]? (.bool false) ∧ errIs outs[5]? .value ∧ errIs outs[6]? .value ∧
+    outIs outs[4]? (.bool false) ∧ outIs outs[5]? (.raised .value) ∧ outIs outs[6]? (.raised .value) ∧
     outIs outs[8]? (.bool true) ∧ s.valid = [(2, none), (1, some .value), (0, none)] := by
   decide +kernel
 
@@ -79,6 +79,18 @@ example :
                 .createCopy 1 none none, .eq 1 3]
     let outs := outputs exDb St.empty ops
     outIs outs[3]? (.bool true) ∧ outIs outs[5]? (.bool true) := by
+  decide +kernel
+
+/-- `x.ValidateValues(foreign values, foreign quantity)`: Array 0 (`[3, 1, 2] m`, category with limits) is asked
+to validate the container of Array 1 in Array 1's quantity (passes), caches "valid" and is unchanged: container
+cell 0, its quantity and its class are as before; `IsValid()` then answers from the memo -/
+example :
+    let ops := [Op.mkArray .ndarray [3, 1, 2] exM exLim, .mkArray .list [50, 60, 70, 80] exCm exLength,
+                .validateWith 0 (.member 1) (some 1), .isValid 0, .validateWith 1 (.literal .tuple [500]) (some 0)]
+    let s := run exDbLim St.empty ops
+    let outs := outputs exDbLim St.empty ops
+    s.heap[0]? = some (.seq .ndarray [3, 1, 2]) ∧ s.objs[0]? = some (.array 0 0) ∧ outIs outs[2]? .unit ∧
+    outIs outs[3]? (.bool true) ∧ outIs outs[4]? (.raised .value) ∧ s.valid = [(1, some .value), (0, none)] := by
   decide +kernel
 
 end Barril.Heap
